@@ -146,6 +146,8 @@ static int indexed_table_ref_iter_next(void *p, struct reftable_record *rec)
 			}
 			continue;
 		}
+		/* block_iter_next yields the delta relative to the table. */
+		ref->update_index += reftable_reader_min_update_index(it->r);
 		if (ref->value_type == REFTABLE_REF_VAL2 &&
 		    (!memcmp(it->oid.buf, ref->value.val2.target_value,
 			     it->oid.len) ||
